@@ -182,7 +182,7 @@ Qed.
 Lemma bcode_b_sound v :
   bcode_b v = true ->
   (forall nm body mo fid, bop_of_name nm = None -> ft_body Bf nm = Some body -> ft_val Bf nm = VFun mo fid ->
-     is_ufun v body (ft_val Bf nm)) ->
+     is_ufun (ft_arity Bf nm) v body (ft_val Bf nm)) ->
   bcode v.
 Proof.
   unfold bcode_b. intros H HU. apply andb_prop in H. destruct H as [H Hr]. apply andb_prop in H. destruct H as [H Ha].
@@ -421,7 +421,6 @@ Proof.
   - intros g e Hp.
     cbn [resolve]. unfold rbind. rewrite (resolve_pure e Hp). reflexivity.
   - intros g e _ _ He. cbn [resolve]. unfold rbind. rewrite He. reflexivity.
-  - reflexivity.
   - intros l _ _ HF.
     assert (E : resolve_list_of l [] = Some (l, [])).
     { induction HF as [|x r Hx Hr IH]; [reflexivity|]. cbn [resolve_list_of]. unfold rbind. rewrite Hx, IH. reflexivity. }
@@ -431,16 +430,14 @@ Proof.
   - intros c a b Hc _ _ Ha Hb. cbn [resolve]. unfold rbind. rewrite (resolve_pure c Hc), Ha, Hb. reflexivity.
   - intros c b Hc _ Hb. cbn [resolve]. unfold rbind. rewrite (resolve_pure c Hc), Hb. reflexivity.
   - intros e He. cbn [resolve]. unfold rbind. rewrite (resolve_pure e He). reflexivity.
-  - intros nm b e _ He.
-    change (resolve (NCall (NName nm) [e]) []) with
-      (rbind (resolve (NName nm)) (fun name' => rbind (resolve_list_of [e]) (fun args' => rret (NCall name' args'))) []).
-    unfold rbind. rewrite (resolve_pure (NName nm) eq_refl). cbn [resolve_list_of]. unfold rbind.
-    rewrite (resolve_pure e He). reflexivity.
-  - intros nm e _ He.
-    change (resolve (NCall (NName nm) [e]) []) with
-      (rbind (resolve (NName nm)) (fun name' => rbind (resolve_list_of [e]) (fun args' => rret (NCall name' args'))) []).
-    unfold rbind. rewrite (resolve_pure (NName nm) eq_refl). cbn [resolve_list_of]. unfold rbind.
-    rewrite (resolve_pure e He). reflexivity.
+  - intros nm args Hp.
+    change (resolve (NCall (NName nm) args) []) with
+      (rbind (resolve (NName nm)) (fun name' => rbind (resolve_list_of args) (fun args' => rret (NCall name' args'))) []).
+    unfold rbind. rewrite (resolve_pure (NName nm) eq_refl).
+    assert (E : resolve_list_of args [] = Some (args, [])).
+    { induction args as [|x r IH]; [reflexivity|]. cbn [forallb] in Hp. apply andb_prop in Hp. destruct Hp as [Hx Hr].
+      cbn [resolve_list_of]. unfold rbind. rewrite (resolve_pure x Hx), (IH Hr). reflexivity. }
+    rewrite E. reflexivity.
 Qed.
 
 (* what running a statement leaves: value or error class as the semantics says, and its world — the global
